@@ -31,6 +31,7 @@
 #include <malloc.h>
 #include <stdatomic.h>
 #include <semaphore.h>
+#include <time.h>
 #include <sys/stat.h>
 
 // internals of libyara (libyara.c:53-63); weak: a tree that hides them still links, the observations are then
@@ -192,6 +193,7 @@ typedef struct
   HJOB* job; int tid;
   char* trace; size_t tlen, tcap;
   int msg_index, rdv_done, parked, released, park_seen;
+  long wall_min_ms, wall_max_ms;
   int obs_count, obs_inst, obs_tls;
   int rcs[16];
   char* first_trace; int same;
@@ -478,7 +480,13 @@ static void* thread_main(void* arg)
     if (c->trace) c->trace[0] = 0;
     if (j->release && !c->released && n_park > 0)
       for (int i = 0; i < n_park; i++) sem_wait(&sem_parked);       // every parking thread sits in its callback
+    struct timespec t0, t1;
+    clock_gettime(CLOCK_MONOTONIC, &t0);
     int rc = one_scan(c);
+    clock_gettime(CLOCK_MONOTONIC, &t1);
+    long ms = (long) ((t1.tv_sec - t0.tv_sec) * 1000 + (t1.tv_nsec - t0.tv_nsec) / 1000000);
+    if (r == 0 || ms < c->wall_min_ms) c->wall_min_ms = ms;
+    if (r == 0 || ms > c->wall_max_ms) c->wall_max_ms = ms;
     if (j->park && !c->parked && n_release > 0)
     {
       // the message to park at never came: let the release threads go, and say so
@@ -659,8 +667,8 @@ static void do_run(char* args, FILE* out)
   fprintf(out, "run n=%d protect=%d\n", n, protect);
   for (int i = 0; i < n; i++)
   {
-    fprintf(out, "T %d job=%d reps=%d same=%d obs=%d/%d/%d trace=%s\n", i, idx[i], ctx[i].job->reps, ctx[i].same,
-            ctx[i].obs_count, ctx[i].obs_inst, ctx[i].obs_tls, ctx[i].first_trace ? ctx[i].first_trace : "");
+    fprintf(out, "T %d job=%d reps=%d same=%d obs=%d/%d/%d wall=%ld/%ld trace=%s\n", i, idx[i], ctx[i].job->reps, ctx[i].same,
+            ctx[i].obs_count, ctx[i].obs_inst, ctx[i].obs_tls, ctx[i].wall_min_ms, ctx[i].wall_max_ms, ctx[i].first_trace ? ctx[i].first_trace : "");
   }
   int nv = atomic_load(&nviol);
   for (int k = 0; k < nv && k < MAXVIOL; k++)
